@@ -43,8 +43,10 @@ func pickNameC30(k int) string {
 	case 0:
 		return vrt.Str("name", vrt.Range("namelen", 1, vrt.Param("MAXLEN", 2)))
 	case 1:
-		return ":path"
+		return "accept-charset" // static index 15: fills a 4-bit prefix exactly
 	case 2:
+		return ":path"
+	case 3:
 		return "age"
 	}
 	return ":method"
@@ -108,4 +110,37 @@ func VerifC30_roundtrip() {
 			vrt.Assert(got[j].Sensitive == in[j].Sensitive, "C30/never-index-flag-roundtrip")
 		}
 	}
+}
+
+
+// VerifC30_resize_twice: a populated table, two announced size changes between header blocks (the encoder
+// must then emit the minimum and the final size), and a further field: still decodes identically.
+func VerifC30_resize_twice() {
+	var wire bytes.Buffer
+	enc := NewEncoder(&wire)
+	var got []HeaderField
+	dec := NewDecoder(initialHeaderTableSize, func(f HeaderField) error {
+		got = append(got, f)
+		return nil
+	})
+	f1 := HeaderField{Name: vrt.Str("name", 2), Value: vrt.Str("value", 1)}
+	vrt.Assert(enc.WriteField(f1) == nil, "C30/encode-ok")
+	_, e := dec.Write(wire.Bytes())
+	vrt.Assert(e == nil && dec.Close() == nil, "C30/decode-ok")
+	s1, s2 := vrt.U32("size"), vrt.U32("size")
+	vrt.Assume(s1 <= 4096 && s2 <= 4096)
+	enc.SetMaxDynamicTableSize(s1)
+	enc.SetMaxDynamicTableSize(s2)
+	f2 := HeaderField{Name: ":path", Value: vrt.Str("value", 1)}
+	wire.Reset()
+	vrt.Assert(enc.WriteField(f2) == nil, "C30/encode-ok")
+	_, e = dec.Write(wire.Bytes())
+	vrt.Assert(e == nil, "C30/decode-ok-after-two-size-changes")
+	vrt.Assert(dec.Close() == nil, "C30/decode-complete")
+	vrt.Assert(len(got) == 2, "C30/field-count")
+	if len(got) == 2 {
+		vrt.Assert(got[0] == f1 && got[1].Name == f2.Name && got[1].Value == f2.Value, "C30/fields-after-two-size-changes")
+	}
+	vrt.Assert(dec.dynTab.size <= dec.dynTab.maxSize && enc.dynTab.size <= enc.dynTab.maxSize, "C30/tables-within-size")
+	vrt.Assert(dec.dynTab.maxSize == enc.dynTab.maxSize, "C30/tables-same-max")
 }
